@@ -68,6 +68,7 @@ func FlowProgram(r R, withDisruptive bool) (*sl.Program, []string) {
 			}
 			if Chance(r, 0.5) {
 				rule.Status = Pick(r, []int{401, 403, 404, 500, 302, 301})
+				rule.StatusLast = Chance(r, 0.5)
 			}
 		}
 		p.Items = append(p.Items, sl.Item{Rule: rule})
